@@ -297,6 +297,90 @@ def run(ctx):
         if "remove_node" in ctx.methods(cls):
             with res.guard(f"RC.check_remove_node(ctx, res, {cls})"):
                 RC.check_remove_node(ctx, res, cls)
+    # ---- V-SCOPE: the null model of get_svh is per size class: N and every K_i handed to the p-value come from the
+    #      occurrences of THAT size; a quantity taken from the whole bipartite expansion (all sizes) is another null model
+    with res.guard("V-SCOPE"):
+        import re as _re
+
+        res.rules["V-SCOPE"] = "get_svh: every quantity handed to the p-value of a size class is computed from the occurrences restricted to that size class, not from the whole bipartite expansion"
+        gv = ctx.view("statistical_filters.get_svh")
+        gf = gv.fi
+        loops = [n for n in walk_no_nested(gf.node) if isinstance(n, ast.For) and gv.enclosing(n, (ast.For, ast.While)) is None]
+        srcs = {n.targets[0].id for n in walk_no_nested(gf.node) if isinstance(n, ast.Assign) and isinstance(n.targets[0], ast.Name) and isinstance(n.value, ast.Call) and norm(n.value.func).endswith("_get_bipartite_representation")}
+        sinks = []
+        for n in walk_no_nested(gf.node):
+            if isinstance(n, ast.Call) and ((isinstance(n.func, ast.Name) and n.func.id == "map") or (isinstance(n.func, ast.Attribute) and n.func.attr in ("map", "imap", "starmap"))) and len(n.args) >= 2 and norm(n.args[0]).endswith("_approximated_pvalue"):
+                sinks.append(n)
+        size_loops = [l for l in loops if any(any(s_ is y for y in ast.walk(l)) for s_ in sinks)]
+        if not srcs or not sinks or len(size_loops) != 1:
+            res.unknown("V-SCOPE", gf.short, "map(_approximated_pvalue, params)", "per-size", "the bipartite expansion / the per-size loop / the p-value call were not recognised in get_svh itself", loc(gf, gf.node))
+        else:
+            lp = size_loops[0]
+            loopvars = {x.id for x in ast.walk(lp.target) if isinstance(x, ast.Name)}
+
+            def names_of(e):
+                out = {x.id for x in ast.walk(e) if isinstance(x, ast.Name) and isinstance(x.ctx, ast.Load)}
+                for c_ in ast.walk(e):
+                    if isinstance(c_, ast.Constant) and isinstance(c_.value, str):
+                        out |= set(_re.findall(r"@([A-Za-z_][A-Za-z_0-9]*)", c_.value))  # DataFrame.query("b in @sub_deg")
+                return out
+
+            asg = [n for n in walk_no_nested(gf.node) if isinstance(n, ast.Assign) and len(n.targets) == 1 and isinstance(n.targets[0], ast.Name)]
+            # names that depend on the size class (the loop variable), to a fixed point
+            dep = set(loopvars)
+            changed = True
+            while changed:
+                changed = False
+                for n in asg:
+                    if n.targets[0].id not in dep and names_of(n.value) & dep and any(n is y for y in ast.walk(lp)):
+                        dep.add(n.targets[0].id)
+                        changed = True
+            # names computed from the whole expansion without any size-class dependent name: global quantities
+            glob = set(srcs)
+            changed = True
+            while changed:
+                changed = False
+                for n in asg:
+                    t_ = n.targets[0].id
+                    if t_ not in glob and t_ not in dep and names_of(n.value) & glob:
+                        glob.add(t_)
+                        changed = True
+            for sk in sinks:
+                arg = sk.args[1]
+                # everything the parameters are computed from, followed through the local definitions - but not through a
+                # SELECTION by size class (a definition that combines the expansion with a size-dependent name): what comes
+                # out of it is restricted
+                used, todo = set(), list(names_of(arg))
+                while todo:
+                    nm = todo.pop()
+                    if nm in used:
+                        continue
+                    used.add(nm)
+                    for n in asg:
+                        if n.targets[0].id != nm:
+                            continue
+                        ns_ = names_of(n.value)
+
+                        def restricts(val):
+                            """an operation ON a global table whose argument / subscript mentions a size-dependent name:
+                            df.query("b in @sub_deg"), df[df.b.isin(sub_deg)], table.loc[order]"""
+                            for x in ast.walk(val):
+                                base, args = None, []
+                                if isinstance(x, ast.Call) and isinstance(x.func, ast.Attribute):
+                                    base, args = x.func.value, list(x.args) + [k.value for k in x.keywords]
+                                elif isinstance(x, ast.Subscript):
+                                    base, args = x.value, [x.slice]
+                                if base is None:
+                                    continue
+                                if names_of(base) & glob and any(names_of(a_) & dep for a_ in args):
+                                    return True
+                            return False
+
+                        if restricts(n.value):
+                            continue  # restriction of the expansion to the size class
+                        todo += list(ns_)
+                bad = sorted((used & glob) - dep)
+                res.add("V-SCOPE", gf.short, norm(sk)[:120], "per-size", "violation" if bad else "ok", "" if not bad else f"the parameters handed to the p-value use `{bad[0]}`, computed from the whole bipartite expansion (all hyperedge sizes), inside the loop over size classes: K_i / N are then not the size-n occurrences and the p-value is not the Binomial(N, prod K_i/N) tail of the definition", loc(gf, sk))
     with res.guard("get_svh"):
         b = ctx.view("statistical_filters._get_bipartite_representation")
         fb = b.fi.short
